@@ -133,6 +133,59 @@ def h_reject_then(f, kind, then):
     return body
 
 
+def h_several(fa, fb, kind, order, bad=None):
+    """several specification objects alive in one process, their calls interleaved (order: a string over 'a','b'; 'B' = reset of b;
+    bad: an unsupported formula whose object is created and rejected in between): every call on a supported object returns normally"""
+    fa, fb = T(fa), T(fb)
+
+    def body(env):
+        import rtamt
+        A = env.A
+        dense = kind.startswith('ct')
+        objs, data, step = {}, {}, {'a': 0, 'b': 0}
+        for c, f in (('a', fa), ('b', fb)):
+            vs = sorted(variables(f))
+            if dense:
+                objs[c] = ct.make_spec('online' if kind == 'ct-online' else 'combined', 'out = ' + text(f), vs)
+                data[c] = {v: ct.signal(env, '%s_%s' % (c, v), 4, 'zero', grid=[0, 1, 2, 3]) for v in vs}
+            else:
+                objs[c] = dt.make_spec('online' if kind == 'dt-online' else 'combined', 'out = ' + text(f), vs)
+                data[c] = dt.trace(env, vs, 4, prefix=c + '_')
+        n = 0
+        for ch in order:
+            if ch == 'X':
+                g = T(bad)
+                try:
+                    sb = (ct if dense else dt).make_spec('online', 'out = ' + text(g), sorted(variables(g)))
+                    if dense:
+                        sb.update(*[[v, [[0, 1.0]]] for v in sorted(variables(g))])
+                    else:
+                        sb.update(0, [(v, 1.0) for v in sorted(variables(g))])
+                except rtamt.RTAMTException:
+                    pass
+                continue
+            c = ch.lower()
+            if ch.isupper():
+                objs[c].reset()
+                step[c] = 0
+                continue
+            i = step[c]
+            step[c] += 1
+            vs = sorted(data[c])
+            if dense:
+                r = objs[c].update(*[[v, [list(data[c][v][i])]] for v in vs])
+                ok = isinstance(r, list)
+            else:
+                r = objs[c].update(i, [(v, data[c][v][i]) for v in vs])
+                ok = r is not None
+            n += 1
+            if not ok:
+                return [('returns-values', A.false)]
+        env.observe('calls', n)
+        return [('returns-values', A.true)]
+    return body
+
+
 def obligations(tier, rng):
     quick = tier == 'quick'
     out = []
@@ -172,6 +225,13 @@ def obligations(tier, rng):
             f = (k, X, Y, a, b)
             for kind in ['ct-offline'] + ([] if k == 'until_t' else ['ct-online']):
                 out.append(ob('C17', 'supported', 'wide/%s/%s/grid=0,1,2,3' % (kind, text(f)), f=f, N=4, kind=kind, grid=[0, 1, 2, 3], max_paths=30000, wall=900))
+    # several objects in one process, calls interleaved; an object that is rejected (or reset) in between
+    G1 = ('geq', X, ('const', 1.0))
+    pairs2 = [(('once_t', G1, 0, 1), ('historically', ('geq', Y, ('const', 0.0)))), (G1, G1), (('since', X, Y), ('once', X)), (('and', G1, ('once', G1)), ('not', G1))]
+    for fa, fb in pairs2:
+        for kind in ('dt-online', 'dt-combined', 'ct-online', 'ct-combined'):
+            for order in (['aba', 'abBa', 'aXa'] if quick else ['aba', 'abab', 'abBa', 'aXa', 'abXab', 'aBab']):
+                out.append(ob('C17', 'several', 'several/%s/%s|%s/%s' % (kind, text(fa), text(fb), order), fa=fa, fb=fb, kind=kind, order=order, bad=('always', X)))
     # input orders
     for order in range(6):
         out.append(ob('C17', 'supported', 'order/dt-online/%d' % order, f=('since', ('and', X, Y), Z), N=3, kind='dt-online', extra='none', order=order))
